@@ -406,6 +406,11 @@ def check(ctx):
                         ok = False
                     if not any(c[1] and c[0].endswith(' in self._types') for c in p.conds):
                         ok = False
+                # a name met for the second time is dropped on *every* path: keeping the definition met first (under whatever condition) makes the
+                # result depend on the order of the modules
+                for p in body:
+                    if any(c[1] and c[0].endswith(' in self._types') for c in p.conds) and not any(ev[0] == 'store' and ev[1].startswith('del self._types[') for ev in p.events):
+                        ok = False
                 for p, st_ins in inserts:
                     lits = {(c[0], c[1]) for c in p.conds}
                     if not any(t_.endswith(' in ' + dset) and not pol for t_, pol in lits) or not any(t_.endswith(' in self._types') and not pol for t_, pol in lits):
@@ -477,3 +482,13 @@ MUTANTS.append(dict(name='COMPONENTS OF members expanded in the referring module
                     inner_module_name)""", new="""                inner_members = self.pre_process_components_of_expand_members(
                     type_descriptor['members'],
                     module_name)""", expect='C19.R6'))
+
+MUTANTS.append(dict(name='a type name defined identically in several modules keeps the first definition', file=COMP,
+                    old="""                if type_name in self._types:
+                    del self._types[type_name]
+                    duplicated.add(type_name)
+                    continue""", new="""                if type_name in self._types:
+                    if self._types[type_name] is not type_:
+                        del self._types[type_name]
+                        duplicated.add(type_name)
+                    continue""", expect='C19.R5'))
